@@ -1,3 +1,5 @@
+import Orca.Gen.ApiOutline
+import Orca.Model.ApiOutlineSpec
 import Orca.Lemmas.Lower
 /-!
 # C15 — before/after/alternate injection is lowered exactly
@@ -60,3 +62,29 @@ example :
       = some ["a", "nop", "b", "c", "y", "end"] := by decide
 
 end Orca.Lower
+
+/-- **The tie to the source (regenerated on every run).** The per-instruction injection lists (`InstrumentationFlag::add_instr`, `has_instr`, `clear_instr`, `Instruction::add_instr`, src/ir/types.rs) that M3 `inject` / `clearInstr` / `hasInstr` transcribe, word for word (white space normalised). Any change of their text breaks this obligation. -/
+theorem c15_injection_lists_code_reviewed :
+    Orca.Gen.ApiOutline.flag_add_instr = Orca.ApiOutlineSpec.flag_add_instr
+    ∧ Orca.Gen.ApiOutline.flag_has_instr = Orca.ApiOutlineSpec.flag_has_instr
+    ∧ Orca.Gen.ApiOutline.flag_clear_instr = Orca.ApiOutlineSpec.flag_clear_instr
+    ∧ Orca.Gen.ApiOutline.instruction_add_instr = Orca.ApiOutlineSpec.instruction_add_instr :=
+  ⟨rfl, rfl, rfl, rfl⟩
+
+/-- **The tie to the source (regenerated on every run).** The location-addressed injection API of the function modifier and of the module iterator (`inject`, `inject_at`, `set_instrument_mode_at`, `clear_instr_at`, `add_instr_at`, `empty_alternate_at`), word for word: which instruction of which function an injection goes to is the whole content of these functions. -/
+theorem c15_location_api_code_reviewed :
+    Orca.Gen.ApiOutline.modifier_inject = Orca.ApiOutlineSpec.modifier_inject
+    ∧ Orca.Gen.ApiOutline.modifier_inject_at = Orca.ApiOutlineSpec.modifier_inject_at
+    ∧ Orca.Gen.ApiOutline.modifier_set_instrument_mode_at = Orca.ApiOutlineSpec.modifier_set_instrument_mode_at
+    ∧ Orca.Gen.ApiOutline.modifier_clear_instr_at = Orca.ApiOutlineSpec.modifier_clear_instr_at
+    ∧ Orca.Gen.ApiOutline.modifier_add_instr_at = Orca.ApiOutlineSpec.modifier_add_instr_at
+    ∧ Orca.Gen.ApiOutline.modifier_empty_alternate_at = Orca.ApiOutlineSpec.modifier_empty_alternate_at
+    ∧ Orca.Gen.ApiOutline.moditer_inject = Orca.ApiOutlineSpec.moditer_inject
+    ∧ Orca.Gen.ApiOutline.moditer_inject_at = Orca.ApiOutlineSpec.moditer_inject_at
+    ∧ Orca.Gen.ApiOutline.moditer_set_instrument_mode_at = Orca.ApiOutlineSpec.moditer_set_instrument_mode_at
+    ∧ Orca.Gen.ApiOutline.moditer_clear_instr_at = Orca.ApiOutlineSpec.moditer_clear_instr_at
+    ∧ Orca.Gen.ApiOutline.moditer_add_instr_at = Orca.ApiOutlineSpec.moditer_add_instr_at
+    ∧ Orca.Gen.ApiOutline.moditer_empty_alternate_at = Orca.ApiOutlineSpec.moditer_empty_alternate_at
+    ∧ Orca.Gen.ApiOutline.localfn_clear_instr_at = Orca.ApiOutlineSpec.localfn_clear_instr_at
+    ∧ Orca.Gen.ApiOutline.body_clear_instr = Orca.ApiOutlineSpec.body_clear_instr :=
+  ⟨rfl, rfl, rfl, rfl, rfl, rfl, rfl, rfl, rfl, rfl, rfl, rfl, rfl, rfl⟩
